@@ -23,16 +23,29 @@ RULE = ('families. modattr-*: a Host with random nested vars (depth<=3, empty co
         'run, arrays and dictionaries with 10^5 entries, 1000 objects in one state file, nesting 123..127 (thorough 1..1000) around '
         'the JSON decoder limit; atomic-fault: the n-th write/fsync/rename/openat/chmod of a persisting write fails with '
         'ENOSPC/EIO/EDQUOT/EACCES/EMFILE/EPERM (strace inject=...:error=...), process must go on, file old or new and loadable. '
+        'dma-text: 1-3 hosts, modifications of vars / vars.<k> / vars.sub.x / notes with values over the C17 key and string alphabet at every '
+        'depth (EMPTY key, dots, quotes, backslash, line breaks, NUL, leading digit, UTF-8, writer keywords, statement/comment/heredoc look-alikes, '
+        'empty strings/arrays/dictionaries; a few cases with the lexer-only keywords in/debugger), DumpModifiedAttributes + reload or full '
+        'restart, the bytes of every block of the real file compared by digest with the Gallina writer text, the real CompileFile outcome with '
+        'the Gallina lexer+parser; repeat-empty-original: every kind of empty-valued original (null, "", 0, false, [], missing key / nested key / '
+        'intermediate, empty notes, unset vars) modified 2-4 times, interleaved, restored; repeat-dict-perkey: the per-key copies of the '
+        'remember test with empty-valued entries. '
         'non-trivial = at least one modify, dump or traced write; distinct = distinct script text')
 TRUSTED = ['model: coq/Persist/PsModel.v (transcription of ConfigObject::ModifyAttribute/RestoreAttribute/DumpModifiedAttributes, '
            'serializer.cpp Serialize/Deserialize, AtomicFile system-call pattern)',
-           'JSON/netstring framing of the state file and the config writer/lexer pair are identity on the generated values except for '
-           'EmitNumber (modelled on decimals); their round trips are the subject of C20/C17',
+           'JSON/netstring framing of the state file is the identity on the generated values (C20 decides it); for modified-attributes.conf '
+           'the writer / lexer / literal parser are the Gallina model of C17 (coq/Cw/CwModel.v, tables regenerated from /repo) composed with '
+           'coq/Persist/PsText.v; the statement context around the literals (obj.modify_attribute(..), obj.version = ..) is compared byte for '
+           'byte by digest, its parse is not modelled',
            'strace(1) output as the observation of system calls; ptrace-based kill injection',
            'hook H1 (virtual clock) in lib/base/utility.cpp']
 ASSUMPTIONS = ['numbers are finite decimals of at most 9 significant digits (exact shortest round trip through binary64)',
                'strings are valid UTF-8; field values have the type of their field (SetField conversions other than null are not modelled)',
                'a crash is a process kill between system calls; power-loss durability is outside the model']
+
+
+def _unhex(k):
+    return bytes.fromhex(k).decode('utf-8', 'replace') if k != '-' else ''
 
 
 def hx(s):
@@ -392,6 +405,185 @@ def mk_population(rnd):
     return {'lines': lines, 'tags': {'family': 'pop-history'}}
 
 
+
+# ---- round 2: the C17 key / string alphabet inside modified attribute values, at every depth --------------------------
+# keys: EMPTY, dots, quotes, backslash, line breaks, NUL, tab, leading digit, UTF-8, writer keywords (written @kw), text that
+# looks like a statement / comment / heredoc / index, and the two lexer-only keywords (finding modattr-keyword-key)
+TKEYS = ['', '', 'a', 'b', 'k1', 'a.b', '..', '.', 'q"t', 'back\\slash', 'nl\nx', 'cr\rx', 'a\0b', '\0', 'tab\t', '1abc', '0', '-', 'ü', '漢字',
+         'sp ace', 'null', 'true', 'object', 'var', 'import', 'this', 'x = 1\nz', '@x', '}', '{', ']', '//c', '/*c', '#c', '}}}', 'a]["b', 'A_9', '_']
+KWKEYS = ['in', 'debugger']
+TSTRS = ['', '', 'hi', 'a.b', 'quo"te', 'back\\slash', 'nl\nx', 'cr\r', 'a\0b', 'tab\t', 'ümlaut €', '*/', '}}}', '"', '\\', '$x$', 'null', '0', "it's", ')', 'x\n}\n']
+TNUMS = ['0', '1', '-1', '5', '300', '0.5', '-2.25', '1234567', '0.001', '0.000001', '0.1234567', '0.0000001', '12345678.1234567', '-0', '100000000', '99.999999']
+
+
+def gen_tval(rnd, depth, kw=0.0, scalar_only=False):
+    r = rnd.random()
+    if depth <= 0 or r < 0.4 or scalar_only:
+        c = rnd.random()
+        if c < 0.12: return 'N'
+        if c < 0.24: return rnd.choice('TF')
+        if c < 0.5: return 'D' + rnd.choice(TNUMS).replace('-0', '0')
+        return 'S' + hx(rnd.choice(TSTRS))
+    if r < 0.6:
+        return 'A(' + ','.join(gen_tval(rnd, depth - 1, kw) for _ in range(rnd.choice((0, 0, 1, 2, 3)))) + ')'
+    return gen_tdict(rnd, depth, kw)
+
+
+def gen_tdict(rnd, depth, kw=0.0, n=None):
+    pool = TKEYS + (KWKEYS * 3 if rnd.random() < kw else [])
+    ks = sorted(set(rnd.choice(pool) for _ in range(rnd.choice((0, 1, 2, 3, 4)) if n is None else n)), key=lambda k: k.encode())
+    return 'M(' + ','.join(hx(k) + ':' + gen_tval(rnd, depth - 1, kw) for k in ks) + ')'
+
+
+def mk_text(rnd):
+    """dma-text: values over the C17 alphabet (empty keys, empty strings / arrays / dictionaries at every depth) written by the
+    real ConfigWriter into modified-attributes.conf, compiled by the real config compiler: ps_dma / ps_restart; second round of
+    modifications; restore-all; final dump.  Paths: top-level vars (whole dictionary; configured vars unset or a dictionary),
+    vars.<k> with a scalar / missing original, notes.  With probability 0.06 a case carries a key `in` / `debugger`."""
+    n = rnd.choice((1, 1, 2, 3))
+    kw = 1.0 if rnd.random() < 0.06 else 0.0
+    head = 'ps_mnew n=%d' % n
+    paths = []
+    for i in range(n):
+        sfx = str(i) if i else ''
+        unset = rnd.random() < 0.3
+        if not unset:
+            head += ' vars%s=M(%s:D1,%s:S%s,%s:N)' % (sfx, hx('a'), hx('e'), hx(''), hx('nul'))
+        head += ' notes%s=%s' % (sfx, hx(rnd.choice(['', '', 'n0'])))
+        c = rnd.random()
+        if c < 0.35: ps = ['vars']
+        else: ps = rnd.sample(['vars.a', 'vars.e', 'vars.nul', 'vars.new', 'vars.sub.x', 'notes'], rnd.randint(1, 3))
+        paths.append(ps)
+    lines = ['now %d' % T0, head]
+    t = T0
+
+    def val(p):
+        if p == 'notes': return 'S' + hx(rnd.choice(TSTRS))
+        if p == 'vars': return gen_tdict(rnd, 3, kw, n=rnd.choice((1, 2, 3, 4)))
+        return gen_tval(rnd, 3, kw)
+    isdict = set()
+    for rounds in range(rnd.randint(1, 2)):
+        for o in range(n):
+            for p in paths[o]:
+                # a nested path that holds a dictionary is not modified again: that is the per-key recording branch (recorded
+                # findings restore-dict-original / modattr-dump-throws), exercised by modattr-random and repeat-dict-perkey
+                if (rounds == 0 or rnd.random() < 0.5) and (o, p) not in isdict:
+                    t += rnd.choice((1, 7, 60))
+                    v = val(p)
+                    if v.startswith('M(') and p != 'vars': isdict.add((o, p))
+                    lines += ['now %d' % t, 'ps_mod obj=%d path=%s val=%s' % (o, hx(p), v)]
+        t += 1
+        lines += ['now %d' % t, rnd.choice(['ps_dma', 'ps_restart'])]
+    order = [(o, p) for o in range(n) for p in paths[o]]
+    rnd.shuffle(order)
+    for o, p in order:
+        t += 1
+        lines += ['now %d' % t, 'ps_res obj=%d path=%s' % (o, hx(p))]
+    lines.append(rnd.choice(['ps_dma', 'ps_restart']))
+    return {'lines': lines, 'tags': {'family': 'dma-text-keyword' if kw else 'dma-text'}}
+
+
+EMPTY_ORIGINALS = [('vars.n', 'null value'), ('vars.s', 'empty string'), ('vars.z', 'zero'), ('vars.f', 'false'), ('vars.ea', 'empty array'),
+                   ('vars.missing', 'missing key'), ('vars.d.missing', 'missing nested key'), ('vars.nx.y', 'missing intermediate'),
+                   ('notes', 'empty String field'), ('vars', 'top-level dictionary')]
+
+
+def mk_repeat(rnd):
+    """repeat-empty-original: every kind of EMPTY-VALUED original (null, "", 0, false, [], a key / nested key / intermediate that
+    does not exist, an unset vars, an empty notes), the same path modified 2-4 times (scalars and arrays: the two copies of the
+    remember test for a non-dictionary old value - top-level and nested), interleaved with modifications of the other paths,
+    restores, and dump + reload / restart points; then restored: must read the value before the FIRST modification since the
+    last restore, original_attributes must not list it."""
+    unset = rnd.random() < 0.25
+    head = 'ps_mnew' + ('' if unset else ' vars=M(%s:M(%s:D1),%s:A(),%s:F,%s:N,%s:S-,%s:D0)' % (hx('d'), hx('k'), hx('ea'), hx('f'), hx('n'), hx('s'), hx('z')))
+    head += ' notes=-'
+    cands = [p for p, _ in EMPTY_ORIGINALS]
+    if unset: cands = ['vars.missing', 'vars.nx.y', 'notes', 'vars']
+    rnd.shuffle(cands)
+    paths = []
+    for c in cands:
+        t = c.split('.')
+        if all(t[:len(u)] != u and u[:len(t)] != t for u in (x.split('.') for x in paths)):
+            paths.append(c)
+    paths = paths[:rnd.randint(1, 4)]
+    lines = ['now %d' % T0, head]
+    t = T0
+
+    def val(p):
+        if p == 'notes': return 'S' + hx(rnd.choice(['x', 'y', '', 'nl\nx', 'q"']))
+        if p == 'vars': return 'M(%s:%s)' % (hx(rnd.choice(['a', 'b', ''])), gen_tval(rnd, 1))
+        c = rnd.random()
+        if c < 0.35: return 'D' + rnd.choice(['0', '1', '7', '0.5'])
+        if c < 0.6: return 'S' + hx(rnd.choice(['', 'x', 'y']))
+        if c < 0.75: return 'A(' + ','.join('D%d' % rnd.randint(0, 3) for _ in range(rnd.randint(0, 2))) + ')'
+        return rnd.choice(['T', 'F', 'N'])
+    count = {p: 0 for p in paths}
+    todo = [p for p in paths for _ in range(rnd.randint(2, 4))]
+    rnd.shuffle(todo)
+    for p in todo:
+        t += 1
+        lines += ['now %d' % t, 'ps_mod path=%s val=%s' % (hx(p), val(p))]
+        count[p] += 1
+        c = rnd.random()
+        if c < 0.12 and count[p] >= 2:
+            t += 1
+            lines += ['now %d' % t, 'ps_res path=%s' % hx(p)]
+            count[p] = 0
+        elif c < 0.2:
+            t += 1
+            lines += ['now %d' % t, rnd.choice(['ps_dma', 'ps_restart'])]
+    order = list(paths)
+    rnd.shuffle(order)
+    for p in order:
+        t += 1
+        lines += ['now %d' % t, 'ps_res path=%s' % hx(p)]
+    lines.append('ps_dma')
+    return {'lines': lines, 'tags': {'family': 'repeat-empty-original'}}
+
+
+def mk_repeat_perkey(rnd):
+    """repeat-dict-perkey: the other two copies of the remember test (old value a dictionary: per key of the old dictionary, per
+    key of a dictionary-valued new value) with empty-valued entries, the path modified 2-3 times.  This is the territory of the
+    recorded findings restore-dict-original / modattr-dump-throws: the model follows the code, the trace comparison decides."""
+    lines = ['now %d' % T0, 'ps_mnew vars=M(%s:M(%s:S-,%s:N,%s:D0,%s:D5))' % (hx('d'), hx('e'), hx('k'), hx('z'), hx('w'))]
+    t = T0
+    for i in range(rnd.randint(2, 3)):
+        t += 1
+        ks = sorted(set(rnd.choice(['e', 'k', 'z', 'w', 'm', 'm2']) for _ in range(rnd.randint(1, 3))), key=lambda k: k.encode())
+        v = 'M(' + ','.join(hx(k) + ':' + rnd.choice(['D1', 'D2', 'S' + hx('x'), 'N', 'S-']) for k in ks) + ')'
+        lines += ['now %d' % t, 'ps_mod path=%s val=%s' % (hx('vars.d'), v)]
+        if rnd.random() < 0.3:
+            t += 1
+            lines += ['now %d' % t, 'ps_mod path=%s val=%s' % (hx('vars.d.' + rnd.choice(['e', 'k', 'm'])), rnd.choice(['D9', 'S' + hx('y')]))]
+    t += 1
+    lines += ['now %d' % t, 'ps_res path=%s' % hx(rnd.choice(['vars.d', 'vars.d.k', 'vars.d.e']))]
+    if rnd.random() < 0.5: lines.append('ps_dma')
+    return {'lines': lines, 'tags': {'family': 'repeat-dict-perkey'}}
+
+
+def mk_text_special():
+    out = []
+    S = lambda fam, *ls: out.append({'lines': ['now %d' % T0] + list(ls), 'tags': {'family': fam}})
+    # the empty key at depth 1, 2, 3 and inside an array, in a nested path and in the whole vars; empty containers
+    S('dma-text', 'ps_mnew vars=M(61:D1)', 'ps_mod path=%s val=M(-:S%s)' % (hx('vars.x'), hx('value')), 'ps_dma')
+    S('dma-text', 'ps_mnew vars=M(61:D1)', 'ps_mod path=%s val=M(61:M(-:M(-:D1)))' % hx('vars.x'), 'ps_restart')
+    S('dma-text', 'ps_mnew vars=M(61:D1)', 'ps_mod path=%s val=A(A(),M(),M(-:A(M(-:S-))))' % hx('vars.x'), 'ps_dma')
+    S('dma-text', 'ps_mnew', 'ps_mod path=%s val=M(-:D1,%s:M())' % (hx('vars'), hx('b')), 'ps_restart')
+    S('dma-text', 'ps_mnew n=2 vars=M(61:D1)', 'ps_mod obj=0 path=%s val=S%s' % (hx('vars.a'), hx('ok')), 'ps_mod obj=1 path=%s val=M(-:D1)' % hx('vars.x'), 'ps_dma')
+    # lexer-only keywords as keys: finding modattr-keyword-key (one such line takes the other object's block with it)
+    S('dma-text-keyword', 'ps_mnew vars=M(61:D1)', 'ps_mod path=%s val=M(%s:D1)' % (hx('vars.x'), hx('in')), 'ps_dma')
+    S('dma-text-keyword', 'ps_mnew vars=M(61:D1)', 'ps_mod path=%s val=A(M(61:M(%s:N)))' % (hx('vars.x'), hx('debugger')), 'ps_restart')
+    S('dma-text-keyword', 'ps_mnew n=2 vars=M(61:D1)', 'ps_mod obj=0 path=%s val=S%s' % (hx('vars.a'), hx('ok')), 'ps_mod obj=1 path=%s val=M(%s:D1)' % (hx('vars.x'), hx('in')), 'ps_dma')
+    # every empty-valued original, modified three times, restored (seeded change: remember test on the VALUE)
+    for p, _ in EMPTY_ORIGINALS:
+        unset = p in ('vars',)
+        head = 'ps_mnew notes=-' + ('' if unset else ' vars=M(%s:M(%s:D1),%s:A(),%s:F,%s:N,%s:S-,%s:D0)' % (hx('d'), hx('k'), hx('ea'), hx('f'), hx('n'), hx('s'), hx('z')))
+        v = (lambda i: 'S' + hx('v%d' % i)) if p != 'vars' else (lambda i: 'M(%s:D%d)' % (hx('k'), i))
+        S('repeat-empty-original', head, 'now %d' % (T0 + 1), 'ps_mod path=%s val=%s' % (hx(p), v(1)), 'now %d' % (T0 + 2), 'ps_mod path=%s val=%s' % (hx(p), v(2)),
+          'now %d' % (T0 + 3), 'ps_mod path=%s val=%s' % (hx(p), v(3)), 'now %d' % (T0 + 4), 'ps_res path=%s' % hx(p), 'ps_dma')
+    return out
+
+
 # sizes around the buffer boundaries of the readers/writers: StreamReadContext::FillFromStream reads 4096-byte chunks up to
 # 64 KiB per call (lib/base/stream.cpp), boost::iostreams buffers 4096 bytes, JSON-RPC caps anonymous messages at 1 MiB
 # (the cap a state file must NOT have), netstring length prefixes grow a digit at 10^k
@@ -496,6 +688,10 @@ def generate(seed, tier):
     for i in range(300 * k): cases.append(mk_state_case(rnd, False))
     for i in range(80 * k): cases.append(mk_state_case(rnd, True))
     for i in range(120 * k): cases.append(mk_population(rnd))
+    cases += mk_text_special()
+    for i in range(160 * k): cases.append(mk_text(rnd))
+    for i in range(150 * k): cases.append(mk_repeat(rnd))
+    for i in range(40 * k): cases.append(mk_repeat_perkey(rnd))
     if tier != 'search':
         cases += mk_big(rnd, tier)
         cases += mk_atomic(rnd, tier)
@@ -554,6 +750,44 @@ def _mod_saw_dict(case, impl_lines):
     return False
 
 
+
+KW_HEX = ('696e', '6465627567676572')       # in, debugger
+
+
+def has_kw_key(v):
+    if isinstance(v, dict):
+        return any(k in KW_HEX for k in v) or any(has_kw_key(x) for x in v.values())
+    if isinstance(v, list):
+        return any(has_kw_key(x) for x in v)
+    return False
+
+
+def _listed_keyword_key(case, impl_lines):
+    """finding modattr-keyword-key: at the first failing reload, does the value of a LISTED attribute of some object (as the
+    implementation reported it before the dump) contain a dictionary key `in` / `debugger` at any depth"""
+    last = {}
+    for l in impl_lines:
+        if l.startswith(('mod ', 'res ', 'mnew ', 'dma ', 'rst ')) and ' vars=' in l:
+            kv = dict(x.split('=', 1) for x in l.split()[1:] if '=' in x)
+            if l.startswith(('dma ', 'rst ')) and kv.get('ok') == '0':
+                break
+            last[kv.get('obj', '0')] = kv
+    for kv in last.values():
+        if kv.get('orig', 'N') == 'N':
+            continue
+        vars_ = parse(kv['vars'])
+        for k in parse(kv['orig']):
+            toks = (_unhex(k) if k != '-' else '').split('.')
+            if toks[0] != 'vars':
+                continue
+            cur = vars_
+            for tk in toks[1:]:
+                cur = cur.get(tk.encode().hex() or '-') if isinstance(cur, dict) else None
+            if has_kw_key(cur):
+                return True
+    return False
+
+
 def classify(case, detail, impl_lines):
     try:
         return _classify(case, detail, impl_lines)
@@ -592,25 +826,32 @@ def _classify(case, detail, impl_lines):
         if ' olddict=1' in detail: return 'restore-dict-original'
         if ' overlap=1' in detail: return 'restore-overlap'
         return 'restore'
-    if detail.startswith('modattr-dump-failed'):
-        # the state before the dump: an original_attributes key whose path now runs into a non-dictionary
-        pre = [l for l in impl_lines if l.startswith(('mod ', 'res ', 'mnew '))][-1]
-        kv = dict(x.split('=', 1) for x in pre.split()[1:])
-        if kv['orig'] != 'N':
-            vars_ = parse(kv['vars'])
-            for k in parse(kv['orig']):
-                toks = bytes.fromhex(k).decode('utf-8', 'replace').split('.')
-                if toks[0] != 'vars' or len(toks) < 3: continue
-                cur = vars_
-                for tk in toks[1:-1]:
-                    if not isinstance(cur, dict): break
-                    h = tk.encode().hex() or '-'
-                    if h not in cur: cur = None; break
-                    cur = cur[h]
-                else:
-                    if not isinstance(cur, dict): return 'modattr-dump-throws'
-                if cur is not None and not isinstance(cur, dict): return 'modattr-dump-throws'
+    if detail.startswith('modattr-dump-failed') or detail.startswith('restart-failed rst ok=0 dump-throws'):
+        # the states before the FIRST failing dump: an original_attributes key whose path now runs into a non-dictionary
+        last = {}
+        for l in impl_lines:
+            if l == 'dma ok=0' or l.startswith('rst ok=0 dump-throws'): break
+            if l.startswith(('mod ', 'res ', 'mnew ', 'dma ', 'rst ')) and ' vars=' in l:
+                kv0 = dict(x.split('=', 1) for x in l.split()[1:] if '=' in x)
+                last[kv0.get('obj', '0')] = kv0
+        for kv in last.values():
+          if kv['orig'] != 'N':
+              vars_ = parse(kv['vars'])
+              for k in parse(kv['orig']):
+                  toks = _unhex(k).split('.')
+                  if toks[0] != 'vars' or len(toks) < 3: continue
+                  cur = vars_
+                  for tk in toks[1:-1]:
+                      if not isinstance(cur, dict): break
+                      h = tk.encode().hex() or '-'
+                      if h not in cur: cur = None; break
+                      cur = cur[h]
+                  else:
+                      if not isinstance(cur, dict): return 'modattr-dump-throws'
+                  if cur is not None and not isinstance(cur, dict): return 'modattr-dump-throws'
         return 'modattr-dump'
+    if detail.startswith('modattr-mismatch ok=0') and _listed_keyword_key(case, impl_lines):
+        return 'modattr-keyword-key'
     if detail.startswith('modattr-mismatch'):
         m = re.search(r'ok=1 key=\S+ before=(\S+) after=(\S+) mentioned=1', detail)
         if m and round6(parse(m.group(1))) == parse(m.group(2)) and parse(m.group(1)) != parse(m.group(2)):
@@ -619,7 +860,7 @@ def _classify(case, detail, impl_lines):
             return 'restore-dict-original'
         pre = [l for l in impl_lines if l.startswith(('mod ', 'res ', 'mnew '))][-1]
         og = dict(x.split('=', 1) for x in pre.split()[1:]).get('orig', 'N')
-        keys = [bytes.fromhex(k).decode('utf-8', 'replace').split('.') for k in parse(og)] if og != 'N' else []
+        keys = [_unhex(k).split('.') for k in parse(og)] if og != 'N' else []
         if any(a != b and b[:len(a)] == a for a in keys for b in keys):
             return 'restore-overlap'
         return 'modattr'
@@ -644,12 +885,23 @@ def extra_stats(cases, impl):
     st = {'modify_ok': 0, 'modify_rejected': 0, 'restore_ok': 0, 'restore_rejected': 0, 'dma': 0, 'dumprestore': 0,
           'state_roundtrip_identical': 0, 'traced_writes': 0, 'kills': 0, 'kill_left_old': 0, 'kill_left_new': 0, 'kill_left_absent': 0,
           'restarts': 0, 'population_reloads': 0, 'objects_reloaded_with_own_version': 0, 'faults': 0, 'fault_left_old': 0, 'fault_left_new': 0,
-          'fault_left_absent': 0, 'largest_string_bytes': 0, 'records_over_1MiB': 0, 'objects_lost_to_depth_limit': 0}
+          'fault_left_absent': 0, 'largest_string_bytes': 0, 'records_over_1MiB': 0, 'objects_lost_to_depth_limit': 0,
+          'modattr_blocks_text_compared': 0, 'empty_keys_written': 0, 'reloads_failed_to_compile': 0, 'repeated_modifications_of_a_listed_path': 0}
     for c in cases:
         for l in c['lines']:
             for m in re.finditer(r'R(\d+)x', l):
                 st['largest_string_bytes'] = max(st['largest_string_bytes'], int(m.group(1)))
                 if int(m.group(1)) > 1048576 and l.startswith(('ps_cr', 'ps_exec')): st['records_over_1MiB'] += 1
+    for c in cases:
+        seen = set()
+        for l in c['lines']:
+            if l.startswith('ps_mod') and (':M(-:' in l or '(-:' in l or ',-:' in l) and any(x in ('ps_dma', 'ps_restart') for x in c['lines']): st['empty_keys_written'] += 1
+            if l.startswith('ps_mod'):
+                key = tuple(x for x in l.split() if x.startswith(('obj=', 'path=')))
+                if key in seen: st['repeated_modifications_of_a_listed_path'] += 1
+                seen.add(key)
+            elif l.startswith('ps_res'):
+                seen.discard(tuple(x for x in l.split() if x.startswith(('obj=', 'path='))))
     for c in cases:
         for l in impl.get(c['id'], []):
             if l.startswith('mod ok=1'): st['modify_ok'] += 1
@@ -658,9 +910,12 @@ def extra_stats(cases, impl):
             elif l.startswith('res ok=0'): st['restore_rejected'] += 1
             elif l.startswith('dma '):
                 st['dma'] += 1
+                if ' txt=' in l and not l.endswith('txt=-'): st['modattr_blocks_text_compared'] += 1
+                if ' ok=0 ' in l and ' vars=' in l: st['reloads_failed_to_compile'] += 1
                 if ' obj=0 ' in l: st['population_reloads'] += 1
                 if ' obj=' in l and ' orig=M(' in l and ' orig=M() ' not in l: st['objects_reloaded_with_own_version'] += 1
             elif l.startswith('rst '):
+                if ' txt=' in l and not l.endswith('txt=-'): st['modattr_blocks_text_compared'] += 1
                 if ' obj=0 ' in l or ' obj=' not in l: st['restarts'] += 1
                 if ' obj=' in l and ' orig=M(' in l and ' orig=M() ' not in l: st['objects_reloaded_with_own_version'] += 1
             elif l.startswith('fault ok'):
